@@ -244,13 +244,15 @@ def r09e(ctx):
     for q, info in sorted(fts.items()):
         if info["name"] not in FORMATS:
             continue
-        for f in loader_chain(m, m.method(q, "build_tree")):
-            if f.qual in done:
+        queue = [(f_, {}) for f_ in loader_chain(m, m.method(q, "build_tree"))]
+        while queue:
+            f, seed_binds = queue.pop(0)
+            if (f.qual, tuple(sorted(seed_binds))) in done:
                 continue
-            done.add(f.qual)
+            done.add((f.qual, tuple(sorted(seed_binds))))
             # name -> [(line of the binding, kind)]; a name may be re-bound (`docs = docs[0]`), so what it holds at a use is
             # the union over the bindings above that use, and "may be a document" is what matters for a truth test
-            binds = {}
+            binds = {k_: [(0, v_)] for k_, v_ in seed_binds.items()}
 
             def kind_of_name(name, line):
                 ks = {k for ln, k in binds.get(name, ()) if ln < line}
@@ -298,7 +300,18 @@ def r09e(ctx):
                             binds[a.target.id].append((ln - 1, "DOC"))       # loop and comprehension variables alike
             parses = [c for c in walk_no_nested(f.node) if isinstance(c, ast.Call) and classify(c) in ("DOC", "DOCS")
                       and (call_name(c) or "").rsplit(".", 1)[-1] in PARSE_NAMES]
-            if not parses:
+            # module-level helpers that are handed a document (or the documents): judged with that parameter bound
+            for c in walk_no_nested(f.node):
+                if isinstance(c, ast.Call) and isinstance(c.func, ast.Name):
+                    r_ = m.resolve_expr(f.module, c.func)
+                    h_ = m.functions.get(r_[0][1]) if r_ and r_[0] and r_[0][0] == "func" else None
+                    if h_ is None or h_.node is f.node or h_.node.name == "build_tree":
+                        continue
+                    hp = func_params(h_.node)
+                    sb = {hp[i_]: classify(a_) for i_, a_ in enumerate(c.args) if i_ < len(hp) and classify(a_)}
+                    if sb:
+                        queue.append((h_, sb))
+            if not parses and not seed_binds:
                 continue
             n += len(parses)
             bad = [e for e in _truth_tested(f.node) if classify(e) == "DOC"]
@@ -312,7 +325,7 @@ def r09e(ctx):
                                   f"(`{norm(parent(e), 70)}`): a falsy document ([], {{}}, 0, false, '') is replaced or routed "
                                   f"differently in the {info['name']} loader only, so the same data loaded from another format "
                                   f"builds a different tree")
-            else:
+            elif parses:
                 ctx.proved("R09e", f.file, f.short, parses[0], "documents reach json.build_tree untested",
                            f"{len(parses)} parser call(s); no parsed document is used for its truth value")
     ctx.floor("R09e", n, 4, "third-party parser calls on loader paths")
